@@ -1071,7 +1071,7 @@ def run(ctx):
     ctx.mc('MC_Perdictable', 'MC_Perdictable_identity.cfg', must_fail='ObjectLookupIsLaw', coverage=False, workers=1)
     # sessions on caller-owned tables: the law of a session, the mechanism of _item that makes renamed copies against it, and
     # (expected to fail) the mechanism that writes into the caller's table
-    ctx.mc('MC_PerdictableSess', 'MC_PerdictableSess_quick.cfg')
+    ctx.mc('MC_PerdictableSess', 'MC_PerdictableSess_%s.cfg' % ('quick' if q else 'thorough'))
     ctx.mc('MC_PerdictableSess', 'MC_PerdictableSess_inplace.cfg', must_fail='InPlaceIsLaw', coverage=False, workers=1)
     if q:
         gen = sorted(ctx.generate('MC_PerdictableSess', 'MC_PerdictableSess_gen_quick.cfg'), key=lambda x: json.dumps(x, sort_keys=True))
@@ -1079,7 +1079,7 @@ def run(ctx):
     else:
         gen = sorted(ctx.generate('MC_PerdictableSess', 'MC_PerdictableSess_gen_thorough.cfg'), key=lambda x: json.dumps(x, sort_keys=True))
         wide = [x for x in gen if x['size'][2] == 'all']          # every pair of forms: a seeded sample
-        sessions(ctx, [x for x in gen if x['size'][2] != 'all'] + ctx.rng.sample(wide, min(6000, len(wide))), 2000, 'thorough')
+        sessions(ctx, [x for x in gen if x['size'][2] != 'all'] + ctx.rng.sample(wide, min(3000, len(wide))), 1500, 'thorough')
     if q:
         cases = sorted(ctx.generate('MC_Perdictable', 'MC_Perdictable_gen_quick.cfg'), key=canon)
         wide = [c for c in cases if c['size'][:3] == [3, 3, 1]]              # 3 inputs over 3 keys: a seeded sample in the quick tier
